@@ -200,7 +200,7 @@ def main(prop, tier, seed, replay_path=None):
     t0 = time.time()
     rng = random.Random(seed * 101 + 16)
     quick = tier == 'quick'
-    M = 4 if quick else 5
+    M = 5
     if replay_path:
         doc = json.load(open(replay_path if os.path.isabs(replay_path) else os.path.join(tlc.VERIF, replay_path)))
         sessions = [(doc['chart'], doc['hist'])]
@@ -208,7 +208,7 @@ def main(prop, tier, seed, replay_path=None):
         mc = dict(distinct=1, generated=1, completed=True, cmd='')
         nedges = 0
     else:
-        charts = edit_charts(rng, M, 50 if quick else 200)
+        charts = edit_charts(rng, M, 40 if quick else 200)
         d = tlc.workdir('C16_model')
         with open(os.path.join(d, 'ChartsData.tla'), 'w') as f:
             f.write(gc.tla_charts_module('ChartsData', charts))
@@ -224,6 +224,26 @@ def main(prop, tier, seed, replay_path=None):
             if 'hist' in j:
                 h = j['hist'] if isinstance(j['hist'], list) else []
                 sessions.append((charts[j['ci'] - 1] if j['ci'] else None, h))
+        # second exhaustive stage: remove / re-add sequences (depth 2) on deep structures
+        deepc = [c for c in charts if any(gc.depth(c, x) >= 3 for x in range(1, c['n'] + 1))][:8 if quick else 30]
+        if deepc:
+            dB = tlc.workdir('C16_model_readd')
+            with open(os.path.join(dB, 'ChartsData.tla'), 'w') as f:
+                f.write(gc.tla_charts_module('ChartsData', deepc))
+            tlc.write_mc(dB, 'ModelMC', dict(consts, MaxLen=2, Ops={'add_state', 'remove_state'}), view='View',
+                         constraints=['Bounded'], action_constraints=['Emit'], invariants=['InvSound'],
+                         props=['FailedUnchanged'])
+            mcB = tlc.run(dB, timeout=3000)
+            if mcB['error'] or mcB['violated']:
+                print('MACHINERY-FAILURE property=C16: design check (re-add stage) failed\n' + (mcB['error'] or mcB['out'][-2000:]))
+                return 2
+            for j in mcB['json']:
+                if 'hist' in j:
+                    h = j['hist'] if isinstance(j['hist'], list) else []
+                    if len(h) == 2:
+                        sessions.append((deepc[j['ci'] - 1] if j['ci'] else None, h))
+            mc['distinct'] += mcB['distinct']
+            mc['generated'] += mcB['generated']
         nedges = len(sessions)
         deep = None
         if not quick:   # deeper design check without emission
